@@ -43,6 +43,9 @@ def gen_routing(seed, opts=None):
     if plan['framing'] == 'ws':
         for p in plan['link'].values():
             p['chunk'] = 'all'
+    if auth is not None and rng.random() < 0.5:
+        # a verifier whose verdict depends on the route: these routes are closed to everybody
+        auth['deny_routes'] = rng.sample(names, rng.randint(1, 3))
     reqs = []
     for i in range(rng.randint(2, 6)):
         t = rng.choice(TYPES)
@@ -86,6 +89,8 @@ def expected_outcome(plan, rq):
             return ('error', 'auth_missing')
         ok = (a[0] == 'simple' and a[1] == plan['auth']['accept_user']) or (a[0] == 'bearer' and a[1] == plan['auth']['accept_token'])
         if not ok:
+            return ('error', 'auth_rejected')
+        if rq['route'][0] in plan['auth'].get('deny_routes', ()):
             return ('error', 'auth_rejected')
     name = rq['route'][0]
     if name in plan['table'].get(t, {}):
@@ -228,6 +233,8 @@ def _run(world, plan):
             world.rec('auth', route=route_name, kind=type(authentication).__name__)
             if acfg.get('delay'):
                 await asyncio.sleep(acfg['delay'])
+            if route_name in acfg.get('deny_routes', ()):
+                raise Exception('Authentication rejected for this route')
             if isinstance(authentication, AuthenticationSimple):
                 if bytes(authentication.username).decode() != acfg['accept_user']:
                     raise Exception('Authentication rejected')
